@@ -16,6 +16,9 @@ func init() {
 	auxEngines["C17"] = func(g *Gen, id, tier string) auxResult {
 		return runCatalog(g, id, g.walkObligations())
 	}
+	auxEngines["C04"] = func(g *Gen, id, tier string) auxResult {
+		return runCatalog(g, id, g.walkObligations())
+	}
 	propertyAssumptions["C19"] = []string{
 		"the semantics of the documented position language is my reading of the EBNF in the ast package comment (catalog.go: first valid position for ||, first non-nil node for ??, -1 propagation for +, [0]/[$] nil on empty slices)",
 		"the helper functions of ast/pos_util.go and ast/node_wrapper.go behave as their contracts say (posAdd, posChoice, nodeChoice, nodePos/nodeEnd, nodeSliceIndex/Last, ifThenElse, wrapNode)",
